@@ -185,6 +185,7 @@ def rule_unit_pairs(chk, prog):
   rule = 'C18.3-unit-pairs'
   sites = [f'{XU}.datetime64_to_nondim_time', f'{XU}.nondim_time_to_datetime64', f'{PE}.PrimitiveEquationsSpecs.nondimensionalize_timedelta64',
            f'{PE}.PrimitiveEquationsSpecs.dimensionalize_timedelta64', f'{XU}.nondim_time_delta_from_time_axis']
+  per_site = {}
   for q in sites:
     f = prog.func(q)
     ev = sym.Evaluator(prog, sym.Options(fold_consts=True))
@@ -200,6 +201,7 @@ def rule_unit_pairs(chk, prog):
         pints.append(p)
     nps = list({sym.show(x): x for x in nps}.values())
     pints = list({sym.show(x): x for x in pints}.values())
+    per_site[q] = {UNIT_PAIRS.get(x.a[0], x.a[0]) if x.k == 'const' else sym.show(x) for x in nps + pints}
     ok = len(nps) >= 1 and len(pints) == 1 and len({sym.show(x) for x in nps}) == 1
     if ok:
       nu, pu = nps[0], pints[0]
@@ -210,12 +212,8 @@ def rule_unit_pairs(chk, prog):
     chk.check(ok, rule, f'{q}: numpy time unit and pint unit denote the same unit', f'numpy {[sym.show(x) for x in nps]} ↔ pint {[sym.show(x) for x in pints]}', (f.file, f.lineno),
               'matching pair (h↔hour, m↔minute, s↔second, D↔day) or one shared unit variable', f'{[sym.show(x) for x in nps]} vs {[sym.show(x) for x in pints]}')
   # the two timedelta directions use one literal each and the same one
-  units_used = []
-  for name in ('nondimensionalize_timedelta64', 'dimensionalize_timedelta64'):
-    f = prog.func(f'{PE}.PrimitiveEquationsSpecs.{name}')
-    lits = [n.value.value for n in ast.walk(f.node) if isinstance(n, ast.Assign) and isinstance(n.targets[0], ast.Name) and n.targets[0].id == 'base_unit' and isinstance(n.value, ast.Constant)]
-    units_used.append(tuple(lits))
-  chk.check(len(set(units_used)) == 1 and len(units_used[0]) == 1, rule, f'{PE}.PrimitiveEquationsSpecs: both timedelta64 directions use the same base unit', str(units_used), None)
+  units_used = [sorted(per_site.get(f'{PE}.PrimitiveEquationsSpecs.{name}', {'?'})) for name in ('nondimensionalize_timedelta64', 'dimensionalize_timedelta64')]
+  chk.check(units_used[0] == units_used[1] and len(units_used[0]) == 1, rule, f'{PE}.PrimitiveEquationsSpecs: both timedelta64 directions use the same base unit', str(units_used), None)
   # radiation.datetime_to_time: days + seconds / SECONDS_PER_DAY, in pint days
   f = prog.func(f'{RA}.datetime_to_time')
   ev = sym.Evaluator(prog, sym.Options(opaque={f'{RA}.datetime64_to_datetime'}))
